@@ -23,10 +23,11 @@ PROPS = {
                       "explicit witness schedule (C16_stale_rate_reachable) and holds in every history where no track is in flight "
                       "across a change (C16_rate_in_force_partial, inductive invariant). The model runs as a twin against kira "
                       "through the public API with probe effects that log init / on_change_sample_rate / dt",
-        "level_note": "PARTIAL: the time-scaling clauses (sounds keep pitch/duration, clocks and tweens keep real-time speed, delay "
-                      "times and filter frequencies keep their values) follow from the closed forms of C04/C05/C06/C13-C14 in which the "
-                      "device rate only enters through dt = 1/rate; they are stated there, not repeated here. Atomicity finer than "
-                      "the four labelled steps (weak memory) is not modelled",
+        "level_note": "time-scaling clauses: C16_clock_rate_independent, C16_tween_rate_independent, C16_sound_position_rate_independent "
+                      "(Props/C16_time.lean) are corollaries of the closed forms of C05/C06/C04 - two devices at any two rates that rendered "
+                      "the same real time, with any chunkings, agree; delay times and filter frequencies: C14/C16 effect theorems. "
+                      "PARTIAL: the protocol claim is false of the current code for tracks in flight across a change (witness + known "
+                      "finding). Atomicity finer than the four labelled steps (weak memory) is not modelled",
         "assumptions": ["handles stay alive (removal is C12's subject)", "sequentially consistent atomics"],
     },
     "C01": {
@@ -45,7 +46,10 @@ PROPS = {
                       "owning properties (C04, C05, C08, C13). The part of C01 no model can exhibit (heap allocation, wall-clock "
                       "promptness, NaN/overflow of IEEE arithmetic in arbitrary scenes) is monitored on the real code by the "
                       "implementation-only suite `system` (panic hook, per-op watchdog, counting allocator, range check)",
-        "level_note": "PARTIAL: theorems cover the final stage and chunking; whole-graph definedness is by component theorems plus "
+        "level_note": "PARTIAL: own theorems cover the final stage and chunking; Props/C01_system.lean re-exports (alias = same proof term) "
+                      "the component results C01 rests on - transport/static-sound/tick-loop never fault or hang, resource queues bounded, "
+                      "audio thread never frees, effect definedness, reverb/delay lines non-empty, each frame asked once through clean "
+                      "buffers - so they are re-checked under C01 on every run; whole-graph definedness is by those component theorems plus "
                       "monitoring; allocation, timing and float overflow are observable only on the real code (tests, not proofs). "
                       "Known findings (finite arguments that hang / panic / emit NaN) are listed in known_findings.json",
         "assumptions": [
